@@ -275,4 +275,23 @@ PROPS["C18"] = dict(
     thorough=dict(checks=60000, shards=16, timeout=3000),
 )
 
+PROPS["C13"] = dict(
+    pkg="c13",
+    level="exploration",
+    technique="property-based testing (rapid) and native fuzzing through sandboxed worker processes: structure-aware hostile mutation of valid images and signatures, outcome classification (return / error / panic / exit / timeout / allocation)",
+    level_text=("Inputs: valid images (generated, library-signed, sbsign fixtures) with every header field the statement names set to hostile constants (e_lfanew, NumberOfSections, SizeOfOptionalHeader, symbol table, magic, SizeOfHeaders, "
+                "NumberOfRvaAndSizes, certificate directory address/size, per-section size/pointer/virtual size, each WIN_CERTIFICATE dwLength/revision/type), truncation at every structural boundary, overlapping sections, byte noise; valid images whose "
+                "table entry is a hostile blob; signatures damaged structurally (30 C04 classes) and at DER level (truncation, hostile length octets, nesting up to 5000, tag changes, slices dropped/duplicated); random bytes up to 64 KiB. "
+                "Each input is run in a persistent worker process through Parse + Signatures + Hash + Bytes + Open + Verify (images) resp. ParsePKCS7/ParseAuthenticode/descriptor Verify (blobs). "
+                "Oracle: the worker answers with a value or an error; a recovered panic, a dead worker (log.Fatal / os.Exit / fatal error, call site from the log line), a reproduced timeout (10 s, re-run alone with 60 s) "
+                "or more than 16 MiB + 256 x input bytes allocated is a violation unless its site matches a listed known finding. Thorough adds coverage-guided native fuzzing of the same entry points."),
+    level_note=("Trusts the sandbox classifier (self-checked per run with a deliberate panic, log.Fatal, 64 MiB allocation, hang, value and error). 'Time proportional to the input' is decided as 'no reproducible timeout at 10^4 x the typical latency', "
+                "not as a complexity bound. Known finding by allocation site: debug/pe.readRelocs (stdlib)."),
+    rule=("case = (entry point, input bytes). Non-trivial = input on which the entry point got past its first validation step (the worker reports the deepest stage reached: Parse / ParsePKCS7 succeeded); distinct by SHA-256 of (entry, input)."),
+    assumptions=["allocation is measured with runtime/metrics /gc/heap/allocs:bytes around the request in the worker"],
+    quick=dict(checks=6000, shards=4, timeout=1200, shrinktime=20),
+    thorough=dict(checks=60000, shards=16, timeout=3400, shrinktime=60),
+    fuzz=[("FuzzC13Image", 150), ("FuzzC13PKCS7", 150)],
+)
+
 NOT_APPLICABLE = _NA()
